@@ -71,7 +71,46 @@ Accept(c) ==
     [] c.c \in {"raw_from_vec", "raw_from_iter_nohint", "raw_from_slice", "raw_from_mut_slice", "raw_from_array", "raw_from_vecdeque",
                 "raw_from_linkedlist", "raw_from_hashset", "raw_from_btreeset", "raw_from_binaryheap", "raw_from_hashmap",
                 "raw_from_btreemap", "raw_collect"} -> {"Ok"}
-    [] c.c \in {"sampled_new", "sampled_with_samples"} -> {"Ok"}
+    [] c.c \in {"sampled_new", "sampled_with_samples", "sampled_with_hasher", "sampled_with_key_hasher",
+                "sampled_with_samples_and_hasher", "sampled_with_samples_and_key_hasher",
+                "sampled_with_samples_and_key_hasher_and_hasher"} -> {"Ok"}
+    \* builders whose hashers are replaced (the setter rebuilds the builder at a new type and has to copy every other
+    \* field) between the value setters, in every order
+    [] c.c \in {"arc_builder_perm", "arc_from_builder"} -> OkIf(c.n >= 1, {"InvalidSize"})
+    [] c.c = "slru_builder_perm" -> OkIf(c.a >= 1 /\ c.b >= 1, {"InvalidSize"})
+    [] c.c \in {"2q_builder_hashers", "2q_from_builder"} -> TwoQAccept(c.n, c.rr, c.gr)
+    [] c.c \in {"w_builder_hashers", "w_from_builder"} -> WAccept(c.w, c.b, c.a, c.s, c.fp)
+    \* Default builders have size 0: finalize must reject, not panic
+    [] c.c \in {"arc_builder_default", "2q_builder_default", "slru_builder_default"} -> {"InvalidSize"}
+
+\* ---- what a successful construction must carry (C01: "every internal partition stays within its CONFIGURED bound";
+\* C08: "quota and ghost bound are floor(size x ratio) of the configured ratios").  The harness logs, for an Ok outcome,
+\*   RawLRU:     <<cap>>
+\*   Segmented:  <<probationary cap, protected cap, cap()>>
+\*   2Q:         <<cap(), recent quota, ghost cap, recent list cap, frequent list cap>>
+\*   ARC:        <<cap(), recent, frequent, recent-ghost, frequent-ghost list caps>>
+\*   W-TinyLFU:  <<window cap, probationary cap, protected cap, samples, cap()>>
+\*   TinyLFU:    <<samples>>
+\*   SampledLFU: <<room_left(0) on the fresh tracker = max_cost, size of a sample drawn from 8 tracked keys = min(samples, 8)>>
+\* <<>> = not constrained (W-TinyLFU::new derives its sizes with binary floating point; conversions are covered by OrderOK).
+DefaultSamples == 5
+Min2(x, y) == IF x < y THEN x ELSE y
+TwoQShape(n, rr, gr) == <<n, Floor(n, rr), Floor(n, gr), n, n>>
+Shape(c) ==
+  CASE c.c \in {"raw_new", "raw_with_hasher", "raw_with_cb", "raw_with_cb_and_hasher"} -> <<c.n>>
+    [] c.c \in {"arc_new", "arc_builder", "arc_builder_perm", "arc_from_builder"} -> <<c.n, c.n, c.n, c.n, c.n>>
+    [] c.c \in {"slru_new", "slru_builder", "slru_builder_setters", "slru_builder_perm"} -> <<c.a, c.b, c.a + c.b>>
+    [] c.c \in {"2q_params", "2q_builder", "2q_builder_perm", "2q_builder_hashers", "2q_from_builder"} -> TwoQShape(c.n, c.rr, c.gr)
+    [] c.c = "2q_new" -> TwoQShape(c.n, "quarter", "half")
+    [] c.c = "2q_with_recent_ratio" -> TwoQShape(c.n, c.rr, "half")
+    [] c.c = "2q_with_ghost_ratio" -> TwoQShape(c.n, "quarter", c.gr)
+    [] c.c \in {"w_with_sizes", "w_builder", "w_builder_perm", "w_builder_hashers", "w_from_builder"} -> <<c.w, c.a, c.b, c.s, c.w + c.a + c.b>>
+    [] c.c = "tinylfu_new" -> <<c.s>>
+    [] c.c \in {"sampled_new", "sampled_with_hasher", "sampled_with_key_hasher"} -> <<c.n, DefaultSamples>>
+    [] c.c \in {"sampled_with_samples", "sampled_with_samples_and_hasher", "sampled_with_samples_and_key_hasher",
+                "sampled_with_samples_and_key_hasher_and_hasher"} -> <<c.n, Min2(c.s, 8)>>
+    [] OTHER -> <<>>
+ShapeOK(c, shape) == Shape(c) # <<>> => shape = Shape(c)
 
 \* Construction from an ORDERED source is a history too: the items are put in source order, so the
 \* cache holds them most-recent-first in REVERSE source order, with capacity max(n, 1) (C06/C17:
@@ -98,6 +137,15 @@ Grid ==
   \cup [c : {"raw_from_vec", "raw_from_iter_nohint", "raw_from_slice", "raw_from_mut_slice", "raw_from_array", "raw_from_vecdeque",
              "raw_from_linkedlist", "raw_from_hashset", "raw_from_btreeset", "raw_from_binaryheap", "raw_from_hashmap",
              "raw_from_btreemap", "raw_collect"}, n : Counts]
-  \cup [c : {"sampled_new"}, n : {0, 5}]
-  \cup [c : {"sampled_with_samples"}, n : {0, 5}, s : SamplesSet]
+  \cup [c : {"sampled_new", "sampled_with_hasher", "sampled_with_key_hasher"}, n : {0, 5}]
+  \cup [c : {"sampled_with_samples", "sampled_with_samples_and_hasher", "sampled_with_samples_and_key_hasher",
+             "sampled_with_samples_and_key_hasher_and_hasher"}, n : {0, 5}, s : SamplesSet \cup {20}]
+  \cup [c : {"arc_builder_perm"}, perm : 0..5, n : {0, 1, 3}]
+  \cup [c : {"arc_from_builder"}, n : {0, 1, 3}]
+  \cup [c : {"slru_builder_perm"}, perm : 0..5, a : {0, 1, 2}, b : {0, 1, 3}]
+  \cup [c : {"2q_builder_hashers"}, perm : 0..5, n : {0, 2, 8}, rr : {"zero", "half", "two"}, gr : {"quarter", "one", "nan"}]
+  \cup [c : {"2q_from_builder"}, n : {0, 2, 8}, rr : {"zero", "half", "two"}, gr : {"quarter", "one", "nan"}]
+  \cup [c : {"w_builder_hashers"}, perm : 0..5, w : {0, 1, 2}, b : {0, 3}, a : {1, 2}, s : {0, 4}, fp : {"quarter", "nan"}]
+  \cup [c : {"w_from_builder"}, w : {0, 1, 2}, b : {0, 3}, a : {1, 2}, s : {0, 4}, fp : {"quarter", "nan"}]
+  \cup [c : {"arc_builder_default", "2q_builder_default", "slru_builder_default"}]
 =============================================================================
